@@ -16,7 +16,7 @@ import (
 type cell struct{ v int }
 
 var cells = func() []*cell {
-	r := make([]*cell, 200)
+	r := make([]*cell, 1000)
 	for i := range r {
 		r[i] = &cell{i}
 	}
@@ -531,8 +531,56 @@ func main() {
 			g.setCase("distinct", ss[:1])
 		}
 	}
+	// large inputs: lengths beyond any small-size special case (9..140 elements; thresholds such as 8, 16, 32, 64,
+	// 128 are the usual places for a strategy switch), alphabets from "almost all duplicates" to "almost all distinct"
+	rlen := func(n, alpha int) []int {
+		r := make([]int, n)
+		for i := range r {
+			r[i] = 1 + g.rng.Intn(alpha)
+		}
+		return r
+	}
+	bigSizes := []int{9, 10, 12, 15, 16, 17, 20, 31, 32, 33, 40, 63, 64, 65, 70, 127, 128, 129, 140}
+	for it := 0; it < R/4+10; it++ {
+		n1, n2 := bigSizes[g.rng.Intn(len(bigSizes))], bigSizes[g.rng.Intn(len(bigSizes))]
+		if it%3 == 0 {
+			n1 = 1 + g.rng.Intn(8) // one small, one large argument
+		}
+		alpha := []int{3, n2 / 2, n2, 2 * n2}[g.rng.Intn(4)] + 1
+		a, b := rlen(n1, alpha), rlen(n2, alpha)
+		if it%2 == 0 {
+			a, b = b, a
+		}
+		g.setCase("diff", [][]int{a, b})
+		g.setCase("diff", [][]int{b, a})
+		third := rlen(bigSizes[g.rng.Intn(len(bigSizes))], alpha)
+		for _, fn := range []string{"union", "inter", "disjoin"} {
+			g.setCase(fn, [][]int{a, b})
+			g.setCase(fn, [][]int{a, b, third})
+		}
+		g.setCase("distinct", [][]int{b})
+		if it%4 == 0 {
+			l := nz(rlen(n2, alpha))
+			i := g.rng.Intn(len(l) + 1)
+			j := i + g.rng.Intn(len(l)-i+1)
+			sp := spares[g.rng.Intn(3)]
+			g.listCase("remove", l, sp, i, j, nil, nil)
+			g.listCase("cut", l, sp, i, j, nil, nil)
+			g.listCase("insert", l, sp, i, 0, nz(rlen(n1, alpha)), nil)
+			g.listCase("push", l, sp, 0, 0, nz(rlen(n1, alpha)), nil)
+			g.listCase("pop", l, sp, 0, 0, nil, nil)
+			keep := []int{}
+			for k := 1; k <= alpha; k++ {
+				if g.rng.Intn(2) == 0 {
+					keep = append(keep, k)
+				}
+			}
+			g.listCase("filter", l, sp, 0, 0, nil, keep)
+			g.listCase("filterst", l, sp, g.rng.Intn(5), g.rng.Intn(4), nil, keep)
+		}
+	}
 	g.w.Extra["element_type_disagreements"] = g.typeDisagree
-	g.w.Extra["scope"] = fmt.Sprintf("list ops: all lengths<=%d x spare capacity {0,1,3} x all i<=j / all keep-subsets; set ops: all equality patterns of total length<=%d cut into 1..3 arguments; %d random rounds", L, N, R)
+	g.w.Extra["scope"] = fmt.Sprintf("list ops: all lengths<=%d x spare capacity {0,1,3} x all i<=j / all keep-subsets; set ops: all equality patterns of total length<=%d cut into 1..3 arguments; %d random rounds; %d rounds with large arguments (9..140 elements)", L, N, R, R/4+10)
 	if err := g.w.Flush(); err != nil {
 		fmt.Fprintln(os.Stderr, err)
 		os.Exit(2)
